@@ -44,7 +44,8 @@ def run(tier, seed):
         rp = [dict(name='C08_proc_%s' % m, progs=C.fam(progs), plans=save_plans((1, 2, 3, 4, 5)), alphabet=alpha, k=3, run_kw=rk(m))
               for m in ('pickle', 'copy', 'yaml')]
         # a raw (unserialised) Bundle is only good for ONE restore: the loaded process shares mutable members with it
-        rp.append(dict(name='C08_raw_bundle', progs=C.fam(progs), plans=save_plans((1, 2, 3, 4, 5)), alphabet=['restore', 'resume'], k=2, run_kw=rk('none')))
+        rp.append(dict(name='C08_raw_bundle', progs=C.fam(progs), plans=save_plans((1, 2, 3, 4, 5)), alphabet=['restore', 'resume'], k=2, run_kw=rk('none'),
+                       overrides=[('MaxRestores', 'MCMaxRestores')], extra_defs='MCMaxRestores == 1\n'))
         outl = [('C08_outl4', om.sample(om.family(4, 3), 2500, seed), om.oracles(4), crash_sets(5, 2), 'pickle', 0),
                 ('C08_outl5', om.sample(om.family(5, 2), 1000, seed), om.oracles(4), crash_sets(6, 3), 'pickle', 0),
                 ('C08_outl_yaml', om.sample(om.family(4, 3), 1000, seed), om.oracles(3), crash_sets(4, 1), 'yaml', 0),
